@@ -43,39 +43,6 @@ DynArray *sim_mkarr(int64_t n) {
 }
 
 /* ======================================================================
- * compile cache (zygote side)
- * ====================================================================== */
-typedef struct Prog { char key[40]; uint8_t *d; size_t n; bool ok; } Prog;
-static Prog progs[4096]; static int nprog;
-typedef struct CArg { const char *src; } CArg;
-static void compile_child(void *a, int fd) {
-    CArg *ca = a;
-    sim_reset(); default_knobs(); sim_seed(1);
-    simfs_put("/sim/src/prog.nano", ca->src, strlen(ca->src));
-    Buf out = {0}, err = {0};
-    static char *av[] = { "nano_virt", "/sim/src/prog.nano", "--emit-nvm", "-o", "/sim/out.nvm", NULL };
-    SimProc *p = sim_spawn("virt", "nano_virt", 5, av, &out, &err, 0);
-    sim_env_set(p, "HOME=/nonexistent");
-    int rc = sim_run();
-    FsNode *nd = simfs_lookup("/sim/out.nvm");
-    if (rc == 0 && p->status == 0 && nd && nd->data.len) { ssize_t w = __real_write(fd, nd->data.d, nd->data.len); (void)w; }
-    else if (__real_getenv("NANOSIM_SHOWCOMPILE")) { ssize_t w = __real_write(2, err.d, err.len); w = __real_write(2, out.d, out.len); (void)w; }
-}
-static uint64_t fnv64(const char *s) { uint64_t h = 1469598103934665603ull; for (; *s; s++) { h ^= (uint8_t)*s; h *= 1099511628211ull; } return h; }
-static Prog *prog_lookup(const char *key) { for (int i = 0; i < nprog; i++) if (strcmp(progs[i].key, key) == 0) return &progs[i]; return NULL; }
-static Prog *prog_get(const char *src) {
-    char key[40]; snprintf(key, sizeof key, "g%016llx", (unsigned long long)fnv64(src));
-    Prog *p = prog_lookup(key);
-    if (p) return p;
-    if (nprog == 4096) return NULL;
-    p = &progs[nprog++]; memset(p, 0, sizeof *p); snprintf(p->key, sizeof p->key, "%s", key);
-    CArg ca = { src }; Buf o = {0}; int st = 0; char role[48];
-    fork_collect(compile_child, &ca, &o, &st, role, sizeof role, NULL);
-    if (WIFEXITED(st) && WEXITSTATUS(st) == 0 && o.len > 32) { p->d = o.d; p->n = o.len; p->ok = true; }
-    return p;
-}
-
-/* ======================================================================
  * C15 workload generator
  * ====================================================================== */
 static const char *PRELUDE =
